@@ -11,6 +11,8 @@ CONSTANTS
     KeepChunkSize = TRUE
     DivideKeepsAll = TRUE
     LandmarkOwnStream = TRUE
+    KeepLastDup = TRUE
+    ReservedByFullName = TRUE
 SPECIFICATION MonSpec
 INVARIANTS TocAddressesRightBytes ChunksTileFile OffsetsUniquePerStreamStart EntriesPreserved DiffIDIsHashOfDecompressed TocDigestIsHashOfTocJSON LosslessIdentity
 CHECK_DEADLOCK FALSE
